@@ -222,6 +222,15 @@ func (w *concWorld) Gen(seed uint64, tier string) *Plan {
 		phases = r.Range(1, 6)
 	}
 	id := 0
+	if r.P(1, 12) {
+		// a large container (heap levels wider than 32 elements, trees several levels deep)
+		p.Cfg.Dom = []int{24, 128, 512}[r.Intn(3)]
+		s = makeSubject(p.Cfg, false)
+		op := genFill(r, id, 97, 400)
+		s.ModelApply(op)
+		p.Ops = append(p.Ops, op)
+		id++
+	}
 	for ph := 0; ph < phases; ph++ {
 		for n := []int{0, 2, 5, 10, 20, 40}[r.Intn(6)]; n > 0; n-- {
 			op := s.GenOp(r, id, c)
